@@ -300,8 +300,10 @@ def rule_guards(P) -> RuleResult:
         ok &= J.run(gid, clause, fi, group_paths(col, **good_kw), False, 'the valid counterpart of ' + what)
         done(gid, clause, ok)
 
-    # ---- PIVOT BY
-    fi = _method(P, '_compile_pivot_by')
+    # ---- PIVOT BY: decided where the statement is compiled (_compile_select with the pivot step interpreted in place), so that the
+    #      rules hold however the checks are split between the two functions
+    fi = _method(P, '_compile_select')
+    pv = _method(P, '_compile_pivot_by')
     PB = Sym('PIVOT_BY')
 
     def pivot_paths(columns, group_indexes, known_names=('a', 'b', 'c')):
@@ -309,10 +311,15 @@ def rule_guards(P) -> RuleResult:
         COLS = {c: c for c in columns if isinstance(c, Sym)}
 
         def on_attr(base, attr, ex):
+            if base == SEL and attr == 'pivot_by':
+                return PB
             if base == PB and attr == 'columns':
                 return SList(list(columns))
             if base in tg and attr == 'name':
                 return 'abc'[tg.index(base)]
+            if base in tg and attr == 'is_aggregate':
+                # consistent with the grouping: in an aggregate query the targets that are not grouped are aggregates
+                return group_indexes is not None and tg.index(base) not in group_indexes
             if base in COLS and attr == 'name':
                 return base.name.split('_')[-1]
             return NotImplemented
@@ -324,8 +331,32 @@ def rule_guards(P) -> RuleResult:
             if cn.endswith('Column'):
                 return isinstance(v, Sym) and v.name.startswith('COLREF')
             return False
-        return Engine(P, on_attr=on_attr, on_isinstance=on_isinstance).paths(
-            fi, {'self': SELF, fi.params[1]: PB, fi.params[2]: SList(tg), fi.params[3]: None if group_indexes is None else SList(list(group_indexes))})
+
+        def on_call(fn, fv, rc, a, k, ex, nd):
+            f = str(fn).split('.')[-1]
+            if f == '_compile_from':
+                return None
+            if f == '_compile_targets':
+                return SList(list(tg))
+            if f == '_compile':
+                return Sym('C_WHERE')
+            if f == 'is_aggregate':
+                return False
+            if f == '_compile_group_by':
+                return T('tuple', (SList(), None if group_indexes is None else SList(list(group_indexes)), None))
+            if f == '_compile_order_by':
+                return T('tuple', (SList(), None))
+            if f in ('EvalQuery', 'EvalPivot'):
+                return T('new', (f, a))
+            if f in ('format', 'join'):
+                return 'x'
+            return NotImplemented
+
+        def resolve(node, fname, fval, recv, ex, env):
+            if str(fname).split('.')[-1] == '_compile_pivot_by':
+                return pv
+            return None
+        return Engine(P, on_attr=on_attr, on_isinstance=on_isinstance, on_call=on_call, resolve=resolve).paths(fi, {'self': SELF, fi.params[1]: SEL})
     ok = J.run('pivot-name', 'PIVOT BY name resolves', fi, pivot_paths([Sym('COLREF_zzz'), 2], [0, 1, 2]), True, 'a PIVOT BY name that is not a target')
     ok &= J.run('pivot-name', 'PIVOT BY name resolves', fi, pivot_paths([Sym('COLREF_a'), 2], [0, 1, 2]), False, 'a PIVOT BY name of a target')
     done('pivot-name', 'PIVOT BY name resolves', ok)
